@@ -23,11 +23,14 @@ Definition sanitize_bins (b : bin_input) : result (list Z) :=
 
 Inductive plan := PSelf | PBins (new_shape bins : list Z).
 
-Definition rebin_plan (shape bins : list Z) : result plan :=
-  if forallb (Z.eqb 1) bins then Ok PSelf
-  else if negb (Nat.eqb (length bins) (length shape)) then Err EValue
+(* same_unit: no new unit was asked for (or it equals the cube's) *)
+Definition rebin_plan_u (same_unit : bool) (shape bins : list Z) : result plan :=
+  if negb (Nat.eqb (length bins) (length shape)) then Err EValue
+  else if forallb (Z.eqb 1) bins && same_unit then Ok PSelf
   else if existsb (fun sb => negb (fst sb mod snd sb =? 0)) (combine shape bins) then Err EValue
   else Ok (PBins (zip2z Z.div shape bins) bins).
+
+Definition rebin_plan (shape bins : list Z) : result plan := rebin_plan_u true shape bins.
 
 (* the members of output element j's block, read THROUGH the reshape:
    reshaped[(j0,r0,j1,r1,...)] is the element of x with the same flat (row-major) index *)
